@@ -272,6 +272,9 @@ def units(tier):
             us.append(Unit("selective[%s,recursive=%s,%s]" % (RC.shape_name(p, f, o), rec, "set" if as_set else "list"), M,
                            "selective", dict(pattern=p, folders=f, opts=o, recursive=rec, as_set=as_set, extras=rec,
                                              unroll=1 if tier == "quick" else 2), 3000))
+    # recursive=None is a legal value of the Optional[bool] parameter: it selects like False
+    us.append(Unit("selective[ff/2,recursive=None,list]", M, "selective", dict(pattern="ff", folders=[2], opts={}, recursive=None,
+                                                                                as_set=False, extras=False, unroll=1), 3000))
     # to a directory (filesystem model): nothing but the selected members and the parent directories they need
     for (p, f, o) in [("fdf", [2], {}), ("fdff", [2, 1], {})] + ([("dff", [1, 1], {}), ("dfef", [2], {})] if tier == "thorough" else []):
         for rec in (False, True):
